@@ -4,6 +4,7 @@ parsing event logs."""
 from __future__ import annotations
 import atexit
 import hashlib
+import json
 import os
 import random
 import shutil
@@ -159,6 +160,11 @@ def build_scanner(flex, workdir, name, l_text, flex_args, san=True, tsan=False, 
     flags = ['-O0', '-g', '-w', '-I', HARNESS, '-D_GNU_SOURCE'] + ['-D' + x for x in defines]
     if cxx:
         flags += ['-I', os.path.dirname(flex)]    # <FlexLexer.h> of the tree under test
+    cov = os.environ.get('VERIF_COV_DIR')
+    if cov:
+        # reach measurement (tools/skeleton_coverage.py): source-based coverage instead of the sanitizers
+        san = tsan = False
+        flags += ['-fprofile-instr-generate', '-fcoverage-mapping']
     if tsan:
         flags += ['-fsanitize=thread']
     elif san:
@@ -177,6 +183,8 @@ def build_scanner(flex, workdir, name, l_text, flex_args, san=True, tsan=False, 
     drv = compile_driver(workdir, san=san, tsan=tsan)
     exe = os.path.join(d, name)
     lflags = ['-fsanitize=thread'] if tsan else (SAN_FLAGS if san else [])
+    if cov:
+        lflags = ['-fprofile-instr-generate']
     p = subprocess.run([('clang++' if (cxx or link_cxx) else CC)] + lflags + [obj, drv] + list(extra_objs) + ['-o', exe, '-lpthread'],
                        stdout=subprocess.PIPE, stderr=subprocess.STDOUT, text=True, errors='replace')
     if p.returncode != 0:
@@ -263,9 +271,12 @@ def run_batch(exe, plans, timeout=8, cwd=None):
             f.write(text)
             if not text.endswith('\n'):
                 f.write('\n')
+    env = None
+    if os.environ.get('VERIF_COV_DIR'):
+        env = dict(os.environ, LLVM_PROFILE_FILE=os.path.join(d, 'cov-%m.profraw'))
     try:
         p = subprocess.run([exe, '-b', path, '-t', str(timeout)], stdout=subprocess.PIPE, stderr=subprocess.PIPE,
-                           cwd=cwd or d, timeout=timeout * len(plans) + 60)
+                           cwd=cwd or d, timeout=timeout * len(plans) + 60, env=env)
     finally:
         os.unlink(path)
     out = p.stdout.decode('latin-1').split('\n')
@@ -334,3 +345,33 @@ def hexs(b):
     if len(b) > 512:
         return b[:32].hex() + '~%016x' % fnv64(b)
     return b.hex()
+
+
+def harvest_coverage(workdir):
+    """coverage builds: summarise, per function of every scanner built under `workdir`, whether it was entered and
+    how many of its regions ran; appended to $VERIF_COV_DIR/functions.jsonl (one line per scanner)"""
+    cov = os.environ.get('VERIF_COV_DIR')
+    if not cov:
+        return
+    import glob
+    for d in glob.glob(os.path.join(workdir, '*')):
+        raws = glob.glob(os.path.join(d, 'cov-*.profraw'))
+        exe = os.path.join(d, os.path.basename(d))
+        if not raws or not os.path.exists(exe):
+            continue
+        prof = os.path.join(d, 'cov.profdata')
+        if subprocess.run(['llvm-profdata-14', 'merge', '-sparse', '-o', prof] + raws, stdout=subprocess.DEVNULL, stderr=subprocess.DEVNULL).returncode != 0:
+            continue
+        p = subprocess.run(['llvm-cov-14', 'export', '-format=text', '-instr-profile=' + prof, exe], stdout=subprocess.PIPE, stderr=subprocess.DEVNULL)
+        if p.returncode != 0:
+            continue
+        try:
+            j = json.loads(p.stdout)
+        except Exception:
+            continue
+        out = {}
+        for f in j['data'][0].get('functions', []):
+            regs = [r for r in f.get('regions', []) if r[7] == 0]     # code regions
+            out[f['name'].split(':')[-1]] = [f.get('count', 0), len(regs), sum(1 for r in regs if r[4] > 0)]
+        with open(os.path.join(cov, 'functions-%d.jsonl' % os.getpid()), 'a') as fh:
+            fh.write(json.dumps(out) + '\n')
